@@ -301,12 +301,62 @@ def run_big_loop(res: Res, count: int) -> None:
                         {"p": {"prog": [{"k": "raw", "text": src.rstrip()}], "files": {}, "tables": {}, "rom": "low"}, "src": src})
 
 
+def run_deep(res: Res) -> None:
+    """Conditionals that end a recursion, and macros applied under many nested blocks: one body per level / application, however deep
+    (judged directly: the hand-expanded form is a list of data statements)."""
+    from vf.harness import assemble
+
+    cases = []
+    for depth in (8, 63, 64, 65, 100, 128):
+        cases.append((f"*=0x008000\n.macro countdown(pn) {{\n.db pn\n.if pn {{\ncountdown(pn - 1)\n}}\n}}\ncountdown({depth})\n.db 0xEE\n", bytes(range(depth, -1, -1)) + b"\xee", f"recursion-{depth}"))
+        cases.append((f"*=0x008000\n.macro rows(pn) {{\n.if pn {{\nrows(pn - 1)\n.db pn\n}} else {{\n.db 0xF0\n}}\n}}\nrows({depth})\n", b"\xf0" + bytes(range(1, depth + 1)), f"recursion-else-{depth}"))
+    for depth in (10, 64, 70, 90):
+        cases.append(("*=0x008000\n.macro leaf(pa) {\n.db pa\n}\n" + "{\n" * depth + "leaf(0x5A)\n.if 1 {\nleaf(0x5B)\n}\n" + "}\n" * depth + ".db 0xEE\n", b"\x5a\x5b\xee", f"nested-blocks-{depth}"))
+        cases.append(("*=0x008000\n.macro leaf(pa) {\n.db pa\n}\n" + "".join(f".for zv{i} := 0, 1 {{\n" for i in range(depth)) + "leaf(0x5A)\n" + "}\n" * depth + ".db 0xEE\n", b"\x5a\xee", f"nested-loops-{depth}"))
+    for src, exp, name in cases:
+        r = assemble(src)
+        res.case(src, True)
+        res.count("deep_cases")
+        got = b"".join(b for _, b in r.blocks) if r.ok else b""
+        if not r.ok or got != exp:
+            res.violate("deep-nesting", f"{name}: " + (f"rejected: {r.err_kind}: {r.err_text[:120]}" if not r.ok else f"{got[:12].hex()}.. ({len(got)} bytes) emitted, expected {exp[:12].hex()}.. ({len(exp)})"),
+                        {"p": {"prog": [{"k": "raw", "text": src.rstrip()}], "files": {}, "tables": {}, "rom": "low"}, "src": src})
+
+
+CLI_DEFINE_TEXTS = [("0", 0), ("1", 1), ("4-4", 0), ("0x00", 0), ("3", 3), ("2*0", 0), ("0b0", 0), ("0x10>>8", 0), ("2", 2)]
+CLI_DEFINE_SRC = ("*=0x008000\n.if DBG {\n.db 0xA1\n} else {\n.db 0xB2\n}\n.for zk := 0, DBG {\n.db 0x40 + zk\n}\n"
+                  ".macro mflag(pf) {\n.if pf {\n.db 0xC3\n} else {\n.db 0xD4\n}\n}\nmflag(DBG)\n.if OTHER {\n.db OTHER\n}\n.db 0xEE\n")
+
+
+def cli_define_case(res: Res, text: str, value: int, other: int, first: bool) -> None:
+    """A constant given on the command line (`-D DBG=0`) is a constant like one set with := : conditions and loop bounds over it
+    select the same statements (judged statement by statement)."""
+    from vf.frontends import cli_inprocess, image_of_ips
+
+    defs = [f"DBG={text}", f"OTHER={other}"] if first else [f"OTHER={other}", f"DBG={text}"]
+    exp = (b"\xa1" if value else b"\xb2") + bytes(0x40 + i for i in range(max(0, value))) + (b"\xc3" if value else b"\xd4") + (bytes([other]) if other else b"") + b"\xee"
+    fr = cli_inprocess("ips", CLI_DEFINE_SRC, mapping="low", defines=defs)
+    wit = {"cli_define": [text, value, other, first], "src": CLI_DEFINE_SRC, "defines": defs}
+    res.case(CLI_DEFINE_SRC + repr(defs), True)
+    res.count("command_line_constant_cases")
+    if fr.failed or fr.out is None:
+        res.violate("command-line-constant", f"-D {' '.join(defs)}: the front end fails ({fr.status} {fr.exc} {fr.exc_text[:80]}) on a program whose hand-expanded form is {exp.hex()}", wit)
+        return
+    img, why = image_of_ips(fr.out)
+    got = img.read(0, len(exp)) if img is not None else None
+    if got != exp or (img is not None and img.read(len(exp), 1) is not None):
+        res.violate("command-line-constant", f"-D {' '.join(defs)}: assembled {got.hex() if got else why}, statement by statement {exp.hex()}", wit)
+
+
 def run_shard(shard: dict) -> Res:
     res = Res()
     if shard.get("big_loop"):
         run_big_loop(res, shard["big_loop"])
+        run_deep(res)
         return res
     rng = random.Random(shard["seed"])
+    for text, value in CLI_DEFINE_TEXTS:
+        cli_define_case(res, text, value, rng.choice([0, 5, 0x7F]), rng.random() < 0.5)
     for i in range(shard["n"]):
         if i % 3 == 0:
             p = directed(rng)
@@ -322,5 +372,8 @@ def run_shard(shard: dict) -> Res:
 
 def replay(w: dict) -> Res:
     res = Res()
+    if w.get("cli_define"):
+        cli_define_case(res, *w["cli_define"])
+        return res
     check_program(res, w["p"])
     return res
